@@ -230,7 +230,20 @@ class C12(core.PropertyCheck):
                 ops.append({"op": "postprocess"})
             if dense and ops[-1]["op"] != "postprocess" and len(ops) < n:
                 ops.append({"op": "postprocess"})
-        return {"kind": kind, "mode": mode, "files": files, "ops": ops[:8]}
+        ops = ops[:8]
+        if rng.random() < 0.25:
+            # bounce: a file other files look for goes away and comes back (whoever looked for it must be re-parsed both times)
+            cands = sorted(p for p in exists if p != "index.txt" and (is_source(p) or mode == "disk"))
+            if cands:
+                p = rng.choice(cands)
+                back = src[p] if (p in src and rng.random() < 0.5) else self.gen_text(rng, p, ctx)
+                bounce = [{"op": "delete", "path": p}]
+                if rng.random() < 0.6:
+                    bounce.append({"op": "postprocess"})
+                bounce.append({"op": "create", "path": p, "text": back})
+                bounce.append({"op": "postprocess"})
+                ops = ops[:4] + bounce
+        return {"kind": kind, "mode": mode, "files": files, "ops": ops}
 
     def corpus(self):
         cs = super().corpus()
